@@ -271,7 +271,7 @@ CHECKS = {
         technique="Lean 4 proven certificate checker over crash/restart runs of a real node process with injected crash points + independent Go oracle",
     ),
     'C07': dict(
-        gens=['Ttl'],
+        gens=['Ttl', 'BatchOp'],
         props='ZanVerif.Props.C07',
         protos=[dict(name='data', mode='oracle', quick_seeds=1, thorough_seeds=1, classes='(batch|engine|replay|packed|restart)-dependent:')],
         rule=DATA_RULE,
@@ -511,3 +511,11 @@ CHECKS['C17']['level_note'] = 'F5 (nil.(loadItem) panic of fillPartitionMapV2 fo
 CHECKS['C10']['partial'] = [x for x in CHECKS['C10']['partial'] if 'C10_filter_safe' not in x]
 CHECKS['C10']['level_note'] = 'generation model is abstract (hash-shaped); compaction filter: model + theorems + certificate runs of the real filter function with a set clock (the rocksdb compaction itself, the refresh of the cached clock and engine read errors are outside); read-path expiry only far from the boundary (wall clock)'
 CHECKS['C10']['level_text'] = CHECKS['C10']['level_text'] + " Compaction filter (Props/C10Filter.lean over the executable model Data/CFilter.lean; every decision expression of rockCompactFilter.lazyExpireCheck / Filter REGENERATED from rockredis.go with Go's fixed-width arithmetic made explicit, the statement structure around them pinned): for every entry, store and clock, a value-type entry is removed only if its expiry second e satisfies e > 1500000000 and e + 172800 < clock, hence is expired by the regenerated read/write rule at every clock not behind the filter's (e < 2^32 the only size hypothesis); a collection sub-key is removed only if its collection's meta is absent, of another generation, or expired in that sense; a member of the current generation of an unexpired collection and every entry of another key type is kept; removable stays removable at later clocks; exact closed forms of both cases (lazy removal does happen; generations younger than 48 h are kept). On real stores (protocol cfilter, certificate mode): the REAL filter is called with its cached clock set on EVERY raw engine entry of stores built through the store API (all six types, EXPIRE/PERSIST, cleared / deleted / re-created collections, expiry instants up to the largest admitted one, clocks around every expiry and generation +-1 s, +48 h +-1 s, far future); the Lean driver recomputes the decoded generation, the meta lookup and the verdict of every entry with the model; the Go oracle (filter-drops-live) states the property on the raw bytes (own header decoder) and, for partial compactions that physically remove the rejected entries, on the read API."
+
+# ---- C07: the apply-time batch operator (model Z.BatchOp over the regenerated admission rule)
+CHECKS['C07']['level_text'] = CHECKS['C07']['level_text'] + (" BATCH OPERATOR: an executable model of kvbatchOperator / ApplyRaftRequest / applyEntries (admission by the REGENERATED IsBatchable "
+    "- multi-key DEL excluded, batchable set, batch size bound, key not yet in the batch -, reads of admitted requests on the committed store, buffered writes, kept replies, commit before every "
+    "request that is not admitted and at the end of the event; the statement structure around AddBatchKey is pinned by the translator) with the theorems C07_event_is_sequential (one apply event = "
+    "sequential execution, store and replies), C07_grouping_independent and C07_two_groupings_agree (however the log is cut into apply events the result is that of the sequential execution), "
+    "for every store and request list, under the stated hypothesis that batchable-named single-key requests read and write their first key only.")
+CHECKS['C07']['partial'] = CHECKS['C07']['partial'] + ["the hypothesis `Admissible` of the batch-operator theorems (SET / SETEX / HMSET / single-key DEL touch only their first key) is discharged for the KV model by its shape, not for the real handlers: the table key counter (a commutative merge) and the HyperLogLog cache are outside; on the real code grouping independence is judged by the shadows"]
